@@ -7,10 +7,4 @@ NOT_APPLICABLE = {
     "C14": "typed input: path runs through stdin, two regex compilations per line, Game (book trie via regex, LRU, magic tables) and heap strings; regex/format!/hashbrown are beyond CBMC's reach here (measured, DESIGN §2) (DESIGN §6)",
     "C15": "engine move / book legality: fixed concrete data (74 book lines) chosen with thread_rng, then the search of C07; replaying concrete lines is enumeration, not a solver question (DESIGN §6)",
     "C17": "repetition accounting: the counter is a hashbrown map keyed by the 64-bit key; 4 map operations with symbolic keys did not leave symex in 15 min (measured); the end-to-end clause needs Game (regex-built book, LRU 10^8) (DESIGN §6)",
-    "C01": "harness set under construction in this framework (stage contracts + wiring lemma, DESIGN §5 C01); not claimed until its check is registered",
-    "C06": "harness set under construction (DESIGN §5 C06); not claimed until its check is registered",
-    "C11": "harness set under construction (DESIGN §5 C11); not claimed until its check is registered",
-    "C13": "harness set under construction (DESIGN §5 C13); not claimed until its check is registered",
-    "C18": "harness set under construction (DESIGN §5 C18); not claimed until its check is registered",
-    "C19": "harness set under construction (DESIGN §5 C19); not claimed until its check is registered",
 }
